@@ -10,7 +10,11 @@ is built as a real RuleSet and compared with the expectation - where the expecte
 code -> spec: seeded random rule sets (up to 5 rules, repeated variables, shared prefixes) and
 deeper terms over a larger signature are run through the real RuleSet, each call is recorded and
 TLC decides every record against the contract (RewriteTrace.tla).
-A Python brute-force matcher is only the reference guard of the TLA+ expectation."""
+specs/graph/RewriteImpl.tla is a transcription of the discrimination-net walk (_match: Traverser
+stack, backtracking stack, restore_state_flag; _process_match) that TLC checks against the contract
+on a sample of the same space; the order in which the real iter_matches yields is compared with the
+transcription's (reported).  A Python brute-force matcher is only the reference guard of the TLA+
+expectation."""
 from __future__ import annotations
 
 import json
@@ -23,7 +27,7 @@ META = {
     "design_ref": "DESIGN.md §4.2 C51",
     "technique": "TLA+ contract of RuleSet.iter_matches / top-level rewrite (substitution semantics); TLC enumerates rule sets x "
                  "terms and computes the expected matches; replay into the real RuleSet plus TLC validation of recorded calls on "
-                 "random larger rule sets",
+                 "random larger rule sets; a TLA+ transcription of the discrimination-net walk is model-checked against the contract",
     "level_text": "Bounded: terms over the fixed-arity signature {f/1, g/2, list/2; a, b; x, y}; all single rules with lhs depth "
                   "<= 2, all pairs and triples of rules with lhs depth <= 1, each x all ground terms of depth <= 2 - enumerated by TLC "
                   "(stride-sampled in the quick tier, see enumeration_plan in the evidence) with the expected multiset of matches and "
@@ -274,18 +278,60 @@ def judge_records(ctx, recs):
     return [(byid[rid], clause_names(t)) for rid, t in rej.items()]
 
 
-# --------------------------------------------------------------------------- out-of-domain observation (not judged)
-def mixed_arity_observation():
-    """Heads used at two arities are outside the stated property; what dask does there is only reported."""
-    probes = [("lhs (g,(f,x),y) vs term (g,(f,a,b))", [[["g", ["f", ["x"]], ["y"]], ["h", ["x"], ["y"]]]], ["g", ["f", ["a"], ["b"]]]),
-              ("lhs (f,x,y) vs term (f,a)", [[["f", ["x"], ["y"]], ["h", ["x"], ["y"]]]], ["f", ["a"]]),
-              ("lhs (g,[x],y) vs term (g,[a,b])", [[["g", ["l", ["x"]], ["y"]], ["h", ["x"], ["y"]]]], ["g", ["l", ["a"], ["b"]]])]
-    out = []
-    for name, rules, term in probes:
-        o = observe(rules, term, {"x", "y"})
-        out.append({"probe": name, "iter_matches": o["yielded"] if o["mres"] == "ok" else o.get("exc"),
-                    "rewrite": o["result"] if o["rres"] == "ok" else o.get("exc")})
-    return out
+# --------------------------------------------------------------------------- the transcription of _match
+IMPL_INVS = ["ImplContract", "NoIndexError", "NoRuntimeError", "SentinelKept", "NodeInNet"]
+OUT_OF_DOMAIN = ('<< [rules |-> << [lhs |-> <<"g", <<"f", <<"x">> >>, <<"y">> >>, rhs |-> <<"h">>] >>, '
+                 'term |-> <<"g", <<"f", <<"a">>, <<"b">> >> >>], '
+                 '[rules |-> << [lhs |-> <<"f", <<"x">>, <<"y">> >>, rhs |-> <<"h">>] >>, term |-> <<"f", <<"a">> >>], '
+                 '[rules |-> << [lhs |-> <<"g", <<"l", <<"x">> >>, <<"y">> >>, rhs |-> <<"h">>] >>, '
+                 'term |-> <<"g", <<"l", <<"a">>, <<"b">> >> >>] >>')
+
+
+def in_domain(rules_lhs, term):
+    def wf(t):
+        return (len(t) == 1 and t[0] not in SIG_SMALL) or (t[0] in SIG_SMALL and len(t) == SIG_SMALL[t[0]] + 1 and all(map(wf, t[1:])))
+    return wf(term) and all(wf(l) for l in rules_lhs)
+
+
+def real_sequence(rules_lhs, term):
+    obs = observe([[l, ["h"]] for l in rules_lhs], term, {"x", "y"})
+    if obs["mres"] != "ok":
+        return "indexerror" if "IndexError" in obs.get("exc", "") else "raised", []
+    return "done", [[i, {v: t for v, t in s}] for i, s in obs["yielded"]]
+
+
+def transcription(ctx):
+    """TLC checks the transcription of the net walk (RewriteImpl) against the contract on a sample of the
+    bounded space; the ORDER in which the real iter_matches yields is compared with the transcription's
+    (binding of the transcription - reported, not judged: the order is not part of the property)."""
+    off = lambda st: ctx.rng.randrange(st)
+    scale = ctx.pick(1, 8)
+    jobs = [{"k": 1, "pool": 2, "stride": 512 // scale, "offset": off(512 // scale)},
+            {"k": 2, "pool": 1, "stride": 256 // scale, "offset": off(256 // scale)},
+            {"k": 3, "pool": 1, "stride": 16384 // scale, "offset": off(16384 // scale)}]
+    spec, cfg = ctx.model(ctx.spec("graph", "RewriteImplMC.tla"), dict(MC_CONSTS, Jobs=jobs, TDepth=2, Explicit=TLA(OUT_OF_DOMAIN)),
+                          invariants=IMPL_INVS)
+    cases, _ = ctx.tlc_cases(spec, cfg, label="transcription of _match => contract", timeout=3000)
+    same = differ = 0
+    examples, ood_rows = [], []
+    for c in cases:
+        pc, ys = real_sequence(c["rules"], c["term"])
+        want = [[y["i"], y["s"] if isinstance(y["s"], dict) else {}] for y in c["ys"]]
+        agree = pc == c["pc"] and ys == want
+        if not in_domain(c["rules"], c["term"]):
+            # a head at two arities: does the transcription predict what dask does?  (reported, not judged)
+            ood_rows.append({"rules": c["rules"], "term": c["term"], "transcription": [c["pc"], want], "real": [pc, ys], "agree": agree})
+        elif agree:
+            same += 1
+        else:
+            differ += 1
+            if len(examples) < 3:
+                examples.append({"rules": c["rules"], "term": c["term"], "transcription": [c["pc"], want], "real": [pc, ys]})
+    if len(ood_rows) != 3:
+        raise MachineryError("the out-of-domain probes were not exported by the transcription run")
+    ctx.extra["transcription_of__match"] = {
+        "calls": len(cases) - len(ood_rows), "real_yield_sequence_equals_transcription": same, "differs": differ, "examples_differ": examples,
+        "out_of_domain_mixed_arity (reported, not judged)": ood_rows}
 
 
 # --------------------------------------------------------------------------- entry points
@@ -297,8 +343,8 @@ def plan_for(ctx):
     off = lambda st: ctx.rng.randrange(st)
     mk = lambda k, pool, st: {"k": k, "pool": pool, "stride": st, "offset": off(st)}
     if ctx.quick:
-        return [mk(1, 1, 1), mk(1, 2, 128), mk(2, 1, 48), mk(3, 1, 4096)]
-    return [mk(1, 2, 4), mk(2, 1, 2), mk(3, 1, 128)]
+        return [mk(1, 1, 3), mk(1, 2, 256), mk(2, 1, 96), mk(3, 1, 8192)]
+    return [mk(1, 1, 1), mk(1, 2, 8), mk(2, 1, 4), mk(3, 1, 256)]
 
 
 def enumerated(ctx, jobs):
@@ -311,7 +357,8 @@ def run_cases(ctx, items, collect=None):
     import dask.rewrite  # noqa: F401 - import before forking
     from ..graphs import prepare_fork
     prepare_fork()
-    res = pmap(_work, items, chunk=256)
+    # a case costs ~0.3 ms: below ~10^5 cases a fork pool costs more than it saves
+    res = pmap(_work, items, chunk=256, procs=None if len(items) > 100000 else 1)
     for (case, exp), (cl, detail) in zip(items, res):
         if cl == "GUARD":
             raise MachineryError("TLA+ expectation disagrees with the Python reference matcher on %r: spec=%r ref=%r" % (case, exp, detail))
@@ -327,14 +374,15 @@ def run_cases(ctx, items, collect=None):
 def run(ctx):
     jobs = plan_for(ctx)
     total = 0
-    for j in jobs:                       # one TLC run per job keeps the memory bounded
-        items = enumerated(ctx, [j])
+    transcription(ctx)
+    for group in ([jobs] if ctx.quick else [[j] for j in jobs]):    # thorough: one TLC run per job (bounded memory)
+        items = enumerated(ctx, group)
         total += len(items)
         run_cases(ctx, items)
         mid = items[len(items) // 2]
         ctx.sample({"rules": [r[0] for r in mid[0]["rules"]], "term": mid[0]["term"], "expected_matches": mid[1]["matches"]})
         del items
-    recs = pmap(_record, list(enumerate(random_records(ctx, ctx.pick(3000, 40000)))), chunk=256)
+    recs = [_record(x) for x in enumerate(random_records(ctx, ctx.pick(3000, 30000)))]
     for lo in range(0, len(recs), 20000):
         part = recs[lo:lo + 20000]
         for r in part:
@@ -345,7 +393,6 @@ def run(ctx):
     ctx.extra["cases_enumerated_by_tlc"] = total
     ctx.extra["enumeration_plan"] = [{"rules_per_set": j["k"], "lhs_depth<=": j["pool"], "terms": "all ground, depth<=2",
                                       "stride": j["stride"]} for j in jobs]
-    ctx.extra["out_of_domain_mixed_arity (reported, not judged)"] = mixed_arity_observation()
     ctx.exhaustive = all(j["stride"] == 1 for j in jobs)
     ctx.rule = ("cases = (rule set, ground term) enumerated by TLC with the expected multiset of matches, plus recorded random rule "
                 "sets; non-trivial = at least one rule matches; distinct by (rule set, term)")
@@ -372,7 +419,7 @@ def selftest(ctx):
     import dask.rewrite as dr
     from ..srcmut import mutant
     ok = True
-    items = enumerated(ctx, [{"k": 1, "pool": 2, "stride": 97, "offset": 5}, {"k": 2, "pool": 1, "stride": 61, "offset": 7}])
+    items = enumerated(ctx, [{"k": 1, "pool": 2, "stride": 401, "offset": 5}, {"k": 2, "pool": 1, "stride": 251, "offset": 7}])
     base = {}
     run_cases(ctx, items, base)
     print("selftest C51: unchanged tree -> %s (known: %s)" % (sorted(base), sorted(ctx.known)))
